@@ -150,6 +150,10 @@ func compareMethodInputParam(typ *types.Named) *types.Type {
 			continue
 		}
 		inputType := sig.Params().At(0).Type()
+		if !derive.TakesOther(inputType, typ) {
+			// not an order of the type with itself: Compare(version string) int
+			continue
+		}
 		return &inputType
 	}
 	return nil
